@@ -138,14 +138,17 @@ func workerMain(prop, tier string, worker int, baseSeed uint64, out string) int 
 	// watchdog: a single run that does not finish is harness trouble (exit 2), never a violation
 	var curSeed atomic.Uint64
 	var curStart atomic.Int64
+	var curLimit atomic.Int64 // seconds allowed for the phase in progress (one run, or one minimisation with its own budget)
+	curLimit.Store(150)
 	go func() {
 		for {
 			time.Sleep(time.Second)
 			st := curStart.Load()
-			if st != 0 && time.Since(time.Unix(0, st)) > 150*time.Second {
-				fmt.Fprintf(os.Stderr, "WATCHDOG: run with seed %d did not finish within 150s\n", curSeed.Load())
+			lim := time.Duration(curLimit.Load()) * time.Second
+			if st != 0 && time.Since(time.Unix(0, st)) > lim {
+				fmt.Fprintf(os.Stderr, "WATCHDOG: run with seed %d (or the minimisation of one of its violations) did not finish within %v\n", curSeed.Load(), lim)
 				pprof.Lookup("goroutine").WriteTo(os.Stderr, 2)
-				rep.HarnessErr = fmt.Sprintf("watchdog: run with seed %d did not finish within 150s", curSeed.Load())
+				rep.HarnessErr = fmt.Sprintf("watchdog: run with seed %d did not finish within %v", curSeed.Load(), lim)
 				writeJSON(out, rep)
 				os.Exit(2)
 			}
@@ -155,8 +158,10 @@ func workerMain(prop, tier string, worker int, baseSeed uint64, out string) int 
 		seed := NewRng(baseSeed ^ uint64(worker)*0x9e3779b97f4a7c15).Derive(uint64(i)).U64()
 		rep.Seeds = append(rep.Seeds, seed)
 		curSeed.Store(seed)
+		curLimit.Store(150)
 		curStart.Store(time.Now().UnixNano())
 		res := runOne(prof, seed)
+		curStart.Store(0)
 		rep.Runs++
 		if res.Stats != nil {
 			mergeStats(rep, res.Stats, states, grams)
@@ -193,7 +198,10 @@ func workerMain(prop, tier string, worker int, baseSeed uint64, out string) int 
 				unknownReplays++
 			}
 			seenKeys[v.Key()] = true
+			curLimit.Store(int64(tc.ShrinkSec) + 150) // its own budget plus one trial that may just have started
+			curStart.Store(time.Now().UnixNano())
 			rf := minimise(prof, res, v, time.Duration(tc.ShrinkSec)*time.Second)
+			curStart.Store(0)
 			rf.Tier = tier
 			path := filepath.Join(replayDir(), fmt.Sprintf("%s-%s-%d.json", prop, fpSlug(v.Rule+"-"+v.FP), seed))
 			writeJSON(path, rf)
